@@ -354,6 +354,13 @@ class ContractionTree:
         if other._track_size:
             self._sizes = other._sizes.copy()
 
+        # an explicitly installed surface order travels with the tree
+        surface_order = other.__dict__.get("surface_order", None)
+        if surface_order is not None:
+            self.surface_order = surface_order
+        else:
+            self.__dict__.pop("surface_order", None)
+
     def copy(self):
         """Create a copy of this ``ContractionTree``."""
         tree = object.__new__(self.__class__)
